@@ -2284,6 +2284,7 @@ func (e *CoreExtension) functionParent(args ...interface{}) (interface{}, error)
 		// Create a clean context without parent() function to prevent recursion
 		cleanCtx := NewRenderContext(ctx.env, ctx.context, ctx.engine)
 		cleanCtx.sandboxed = ctx.sandboxed
+		cleanCtx.templateName = ctx.templateName
 		defer cleanCtx.Release()
 
 		// Copy all blocks and variables
